@@ -11,7 +11,7 @@
    The implementation and the environment of struct schemas are Section variables; the argument list is a
    struct schema with required members at tags 1..n, encoded and decoded by the generated-codec model
    (Codec/GenCodec.v: enc_var / dec_fields), exactly as the generator emits genWriteVar / genReadVar for
-   dummy members. Go panics of the generated proxy (write to a nil map) are an explicit outcome. *)
+   dummy members. *)
 From Coq Require Import List NArith ZArith Bool Arith.
 From TarsV Require Import Gen.Consts Base.Hex Codec.Wire Codec.Skip Codec.Prim Codec.GenCodec Frame.Framing Rpc.Filters.
 Import ListNotations.
@@ -113,7 +113,7 @@ Inductive call_res :=
 | COk (ret : option val) (outs : list val) (maps : list smap)   (* maps: the caller's opts after the call *)
 | CSent                                                          (* one-way: nil error, nothing else *)
 | CErr (code : Z) (msg : bytes) (sys : bool)                     (* tars.GetErrorCode(err), err.Error(); sys: text made by the framework *)
-| CPanic                                                         (* the generated proxy panics (assignment to entry in nil map) *)
+| CPanic                                                         (* the generated proxy panics; not an outcome of the model (observed only) *)
 | CLost.                                                         (* no reply: the call would run into its timeout *)
 
 Definition sys_msg : bytes := [63].                (* stands for any framework-made, non-empty error text *)
@@ -184,13 +184,12 @@ Section Call.
              end in
     if (q_ptype q =? c_c01_TARSONEWAY)%Z then (None, s1) else (Some p, s1 ++ [EReply]).
 
-  (* ServantProxy.doInvoke: IRet / SResultDesc -> error *)
+  (* ServantProxy.doInvoke: IRet / SResultDesc -> error. An empty SResultDesc is replaced by a framework-made text;
+     IRet other than 0 and 1 travels in a *tars.Error, otherwise the error is a plain one (GetErrorCode = 1) *)
   Definition map_reply (p : rsppkt) : inv_res :=
     if (p_ret p =? 0)%Z then VResp p
-    else match p_desc p with
-         | [] => VErr 1 sys_msg true                          (* fmt.Errorf("basef error code %d") *)
-         | _ => if (p_ret p =? 1)%Z then VErr 1 (p_desc p) false else VErr (p_ret p) (p_desc p) false
-         end.
+    else let '(desc, sys) := match p_desc p with [] => (sys_msg, true) | _ => (p_desc p, false) end in
+         if (p_ret p =? 1)%Z then VErr 1 desc sys else VErr (p_ret p) desc sys.
 
   (* the caller's variadic opts: 0, 1 (context) or 2 (context, status) maps, each possibly nil *)
   Definition opts := list (option smap).
@@ -198,12 +197,12 @@ Section Call.
   Definition ctx_of (o : opts) : smap := match o with [c] => map_arg c | [c; _] => map_arg c | _ => [] end.
   Definition status_of (o : opts) : smap := match o with [_; s] => map_arg s | _ => [] end.
 
-  (* copying a response map into the caller's map: delete all, then assign - panics on a nil map *)
-  Definition copy_into (target : option smap) (src : smap) : option smap :=
-    match target, src with
-    | Some _, _ => Some src
-    | None, [] => Some []
-    | None, _ :: _ => None                               (* assignment to entry in nil map *)
+  (* copying a response map into the caller's map: delete all, then assign; a nil map (nothing the caller could
+     read the entries from) is left alone *)
+  Definition copy_into (target : option smap) (src : smap) : smap :=
+    match target with
+    | Some _ => src
+    | None => []
     end.
 
   Definition proxy_finish (f : fsig) (args : list val) (o : opts) (r : inv_res) : call_res :=
@@ -217,11 +216,8 @@ Section Call.
             let ret := match fs_ret f with Some _ => Some (hd (VInt 0) vs) | None => None end in
             let outs := match fs_ret f with Some _ => tl vs | None => vs end in
             match o with
-            | [c] => match copy_into c (p_ctx p) with Some c' => COk ret outs [c'] | None => CPanic end
-            | [c; st] => match copy_into c (p_ctx p) with
-                         | Some c' => match copy_into st (p_status p) with Some s' => COk ret outs [c'; s'] | None => CPanic end
-                         | None => CPanic
-                         end
+            | [c] => COk ret outs [copy_into c (p_ctx p)]
+            | [c; st] => COk ret outs [copy_into c (p_ctx p); copy_into st (p_status p)]
             | _ => COk ret outs []
             end
         | _ => CErr 1 sys_msg true
